@@ -110,3 +110,27 @@ REG.contract('C13', A, 'CompilerArgs.to_native', params={'self': CA, 'copy': Boo
              ensures=[f'result == obj_unix_args_to_native(self.compiler, {VIEW})', f'new(self)._container == {VIEW}'] + FLUSHED,
              modifies=MODS, opaque={'unix_args_to_native': ([SeqS], List(Str))}, floor=4, uses=[('L13.view_flushed', {'c': '*'})],
              note='the compiler object is opaque; the list handed to it is exactly the denoted list')
+
+# ---- the classification itself, for the C-like compilers (gcc / clang / ...): the tables and the pattern of the real class
+# against the kinds the statement names.  The other subclasses (D, Fortran via gnu mixins reuse this one) are not under contract.
+try:
+    from pyvc import src as _src
+    _CL = _src.import_module('mesonbuild/compilers/mixins/clike.py').CLikeCompilerArgs
+    _AL = _src.import_module('mesonbuild/arglist.py')
+    BARE = "arg in ('-I', '-isystem', '-L', '-D', '-U', '-l', '-Wl,-l', '-Wl,-rpath,', '-Wl,-rpath-link,')"
+    OVR = "(arg.startswith('-I') or arg.startswith('-isystem') or arg.startswith('-L') or arg.startswith('-D') or arg.startswith('-U'))"
+    ONCE = ("(arg in ('-c', '-S', '-E', '-pipe', '-pthread', '-Wl,--export-dynamic') or arg.startswith('-l') or arg.startswith('-Wl,-l') or arg.startswith('-Wl,-rpath,') "
+            "or arg.startswith('-Wl,-rpath-link,') or arg.endswith('.lib') or arg.endswith('.dll') or arg.endswith('.so') or arg.endswith('.dylib') or arg.endswith('.a') "
+            "or re_match(CompilerArgs.dedup1_regex, arg, 'search'))")
+    REG.contract('C13', A, 'CompilerArgs._can_dedup', variant='clike', params={'cls': Const(_CL), 'arg': Str},
+                 ensures=[f"implies({BARE}, result is Dedup.NO_DEDUP)",
+                          f"implies(not {BARE} and {OVR}, result is Dedup.OVERRIDDEN)",
+                          f"implies(not {BARE} and not {OVR} and {ONCE}, result is Dedup.UNIQUE)",
+                          f"implies(not {BARE} and not {OVR} and not {ONCE}, result is Dedup.NO_DEDUP)"],
+                 result=Dedup, floor=4, dropped=['decorators classmethod / lru_cache: the function is pure, caching does not change its answers'],
+                 note='C-like command lines: a bare prefix is never touched; -I -isystem -L -D -U are override-type; -l / -Wl,-l / rpath arguments, library files (by suffix, or a versioned shared library recognised by the pattern dedup1_regex SEARCHED anywhere in the word), -pthread and the like are once-only; everything else is left alone')
+    REG.contract('C13', A, 'CompilerArgs._should_prepend', variant='clike', params={'cls': Const(_CL), 'arg': Str},
+                 ensures=["result == (arg.startswith('-I') or arg.startswith('-L'))"], result=Bool, floor=1,
+                 dropped=['decorators classmethod / lru_cache'], note='C-like command lines: exactly the -I and -L arguments go to the front')
+except ImportError:       # pragma: no cover
+    pass
